@@ -172,7 +172,7 @@ func init() {
 							if ec.cond == nil {
 								continue
 							}
-							if b, ok := ec.cond.(*ssa.BinOp); ok && b.Op == token.EQL && ec.want {
+							if b := eqOnEdge(ec.cond, ec.want); b != nil {
 								if k, ok := constInt(b.Y); ok && k == 1 {
 									if tl, ok := b.X.(*ssa.UnOp); ok {
 										if tfa, ok := tl.X.(*ssa.FieldAddr); ok && fieldName(tfa.X.Type(), tfa.Field) == "Type" && sameNodeValue(tfa.X, fa.X) {
@@ -286,7 +286,7 @@ func init() {
 						if cl, ok := ec.cond.(*ssa.Call); ok && calleeName(&cl.Call) == "formatter.isVoidElement" && !ec.want {
 							guarded = true
 						}
-						if b, ok := ec.cond.(*ssa.BinOp); ok && b.Op == token.EQL && ec.want {
+						if b := eqOnEdge(ec.cond, ec.want); b != nil {
 							if s, ok := constString(b.Y); ok && (s == "pre" || s == "script" || s == "style") {
 								guarded = true
 							}
